@@ -460,7 +460,17 @@ fn run_matrix(ctx: &mut Ctx, _rng: &mut Rng, index: u64) {
 
 fn run_garbage(ctx: &mut Ctx, rng: &mut Rng, index: u64) {
     let cfg = Config::basic();
-    let reply: Vec<u8> = match index % 7 {
+    let reply: Vec<u8> = match index % 8 {
+        // a 2xx status line followed by a header block that is not one: no agreement either
+        7 => {
+            let bad: Vec<u8> = match rng.below(4) {
+                0 => b"this line has no colon\r\n".to_vec(),
+                1 => b"X-Ctl: a\x01b\r\n".to_vec(),
+                2 => b"X-Del: 5\x7f\r\n".to_vec(),
+                _ => (0..150).flat_map(|i| format!("X-H{i}: v\r\n").into_bytes()).collect(), // more fields than max_headers (100)
+            };
+            [b"HTTP/1.1 200 Connection established\r\n".as_slice(), &bad, b"\r\n"].concat()
+        }
         // a status token that is not exactly three digits is not a status code (no agreement)
         6 => {
             let tok: &[u8] = *rng.pick(&[&b"+200"[..], b"0200", b"2000", b"20", b"2xx", b"200.0", b"-200", b"00200", b"2 00"]);
@@ -483,7 +493,7 @@ fn run_garbage(ctx: &mut Ctx, rng: &mut Rng, index: u64) {
         }
     };
     let descr = |x: &str| format!("{x}; garbage CONNECT reply {}", show(&reply));
-    let mut steps = seg(rng, index / 7, &reply);
+    let mut steps = seg(rng, index / 8, &reply);
     steps.push(Step::Eof);
     ctx.count("garbage_replies", 1);
     let run = match run_scripted(&cfg, steps) {
@@ -518,9 +528,41 @@ pub fn looks_like_2xx(reply: &[u8]) -> bool {
         Some(code) => {
             let code = String::from_utf8_lossy(code);
             let code = code.trim_end_matches('\r');
-            code.len() == 3 && code.starts_with('2') && code.bytes().all(|b| b.is_ascii_digit())
+            if !(code.len() == 3 && code.starts_with('2') && code.bytes().all(|b| b.is_ascii_digit())) {
+                return false;
+            }
         }
-        None => false,
+        None => return false,
+    }
+    // ... followed by a well-formed header block of at most 100 fields, up to its blank line
+    let mut rest = &reply[line_end + 1..];
+    let mut fields = 0;
+    loop {
+        let end = match rest.iter().position(|&b| b == b'\n') {
+            Some(i) => i,
+            None => return false,
+        };
+        let mut line = &rest[..end];
+        if line.last() == Some(&b'\r') {
+            line = &line[..line.len() - 1];
+        }
+        rest = &rest[end + 1..];
+        if line.is_empty() {
+            return true;
+        }
+        fields += 1;
+        let colon = match line.iter().position(|&b| b == b':') {
+            Some(c) => c,
+            None => return false,
+        };
+        // (a field line whose NAME is not a token is dropped by the library, in every response: a
+        //  documented leniency, so such a head still counts as a 2xx head here)
+        let _ = colon;
+        let name_ok = true;
+        let value_ok = line[colon + 1..].iter().all(|&b| b == b'\t' || (b >= 0x20 && b != 0x7f));
+        if !name_ok || !value_ok || fields > 100 {
+            return false;
+        }
     }
 }
 
